@@ -222,7 +222,7 @@ def run(run, model):
         for kind in ("PRE", "POST"):
             evs = ck.by_kind.get(kind, [])
             for ev in evs:
-                ok, detail, node = ck.gate(ev, set())
+                ok, detail, node = ck.gate(ev, set(), user_value=True)
                 run.check(ok, "C09.raise-site", "%s:%s" % (ck.fi.qual, kind), "the wrapper raises the very value the helper returned", detail, ck.loc(node), None, first_line(node.stmt))
     run.do(gates.c08_place, model, "C09.old-for-error")
     from . import fwd
